@@ -3,7 +3,7 @@ GO_PKGNAME = "dht"
 HARNESS = ["dht/sim_test.go", "dht/lookup_test.go", "dht/world_test.go"]
 GO_TEST = "TestVerifC01"
 RUN_MODULE = "Run_C01"
-COQ_TARGETS = ["Corr/Run_C01.vo", "Proofs/LookupProofs.vo"]
+COQ_TARGETS = ["Corr/Run_C01.vo", "Proofs/LookupProofs.vo", "Proofs/RunLookupSound.vo"]
 N = {"quick": 300, "thorough": 6000}
 RULE = ("random networks of 1-50 peers (failing 0-60%, lying 0-30%: oversize lists, duplicates, the requester itself), K in {1,2,3,5,20}, "
         "alpha in {1,2,3,10}, beta in {1,2,3}, IP-group limit 0-3, optional FindPeer-style target, optional stop function, optional cancellation "
